@@ -408,16 +408,113 @@ impl Sweep for Faults {
     }
 }
 
+/// A clean program stops with something to resume (STOP / END inside a loop
+/// inside a subroutine, an interrupt); an edit then makes it faulty; no way of
+/// resuming or entering it may run any of its lines.
+struct BrokenWhileStopped;
+
+const STOPPERS: [&str; 3] = ["STOP", "END", "A$=INKEY$:IF A$=\"\" THEN 50"];
+const BREAKING_EDITS: [&str; 7] = ["DELETE 40", "40", "DELETE 30-40", "20 GOTO 77", "60 GOTO 77", "35 WEND", "DELETE 40-"];
+const RESUMES: [&str; 9] = ["CONT", "RETURN", "NEXT", "GOTO 10", "GOSUB 30", "RUN", "RUN 20", "ON 1 GOTO 30", "IF 1 THEN 30"];
+
+impl Sweep for BrokenWhileStopped {
+    fn name(&self) -> String {
+        "program-broken-while-stopped".into()
+    }
+    fn shards(&self) -> usize {
+        STOPPERS.len()
+    }
+    fn run_shard(&self, shard: usize, ctx: &mut Ctx) {
+        let stopper = STOPPERS[shard];
+        let prog = [
+            "10 PRINT \"m10\";:GOSUB 50".to_string(),
+            "20 PRINT \"m20\";:GOTO 40".to_string(),
+            "30 PRINT \"m30\";".to_string(),
+            "40 PRINT \"m40\";:END".to_string(),
+            // what follows the stopping point prints a marker before anything can fail
+            format!("50 FOR I=1 TO 2:PRINT \"m50\";:{}", if stopper.contains("INKEY") { "GOTO 55".to_string() } else { format!("{}:PRINT \"m51\";:NEXT:RETURN", stopper) }),
+            if stopper.contains("INKEY") { "55 A$=INKEY$:PRINT \"m55\";:GOTO 55".to_string() } else { "55 REM".to_string() },
+        ];
+        for edit in BREAKING_EDITS {
+            for first in RESUMES {
+                for second in ["", "CONT", "RETURN"] {
+                    let desc = format!("{} // RUN (stops: {}) // {} // {} // {}", prog.join(" / "), stopper.split(':').next().unwrap_or(""), edit, first, second);
+                    if !ctx.begin(&desc) {
+                        continue;
+                    }
+                    let r = guard(|| {
+                        let mut s = Session::with(5000, 40);
+                        for l in &prog {
+                            s.enter(l);
+                        }
+                        s.take();
+                        if s.enter("RUN") != crate::driver::Status::Stopped {
+                            s.rt.interrupt();
+                            s.drain();
+                        }
+                        let ran = crate::driver::render(&s.take());
+                        s.enter(edit);
+                        s.take();
+                        let mut outs = vec![];
+                        for cmd in [first, second] {
+                            if cmd.is_empty() {
+                                continue;
+                            }
+                            if s.enter(cmd) != crate::driver::Status::Stopped {
+                                s.rt.interrupt();
+                                s.drain();
+                            }
+                            outs.push((cmd, s.take()));
+                        }
+                        s.enter("PRINT \"D\";");
+                        (ran, outs, s.take())
+                    });
+                    match r {
+                        Err(p) => ctx.violation("broken-while-stopped/panic", p),
+                        Ok((ran, outs, d)) => {
+                            ctx.nontrivial(hash64(&(shard, edit, first, second)));
+                            if !ran.contains("m50") {
+                                ctx.violation("broken-while-stopped/harness", format!("{} : the clean program did not reach its stop: {:?}", desc, ran));
+                                continue;
+                            }
+                            for (cmd, ev) in &outs {
+                                let printed: String = ev.iter().filter_map(|e| if let Ev::Out(t) = e { Some(t.clone()) } else { None }).collect();
+                                if printed.contains('m') {
+                                    ctx.violation(
+                                        &format!("{}/program-with-errors-executes", cmd.split(' ').next().unwrap_or("")),
+                                        format!("{} : {} printed {:?}", desc, cmd, printed),
+                                    );
+                                }
+                                if !ev.iter().any(|e| matches!(e, Ev::Err(_))) {
+                                    ctx.violation(
+                                        &format!("{}/errors-not-reported-on-entry", cmd.split(' ').next().unwrap_or("")),
+                                        format!("{} : {} reported nothing: {:?}", desc, cmd, crate::driver::render(ev)),
+                                    );
+                                }
+                            }
+                            let printed: String = d.iter().filter_map(|e| if let Ev::Out(t) = e { Some(t.clone()) } else { None }).collect();
+                            if printed != "D" {
+                                ctx.violation("direct-statement/blocked-by-program-errors", format!("{} : PRINT \"D\"; gave {:?}", desc, crate::driver::render(&d)));
+                            }
+                        }
+                    }
+                }
+            }
+        }
+        ctx.sample();
+    }
+}
+
 impl Check for C19 {
     fn id(&self) -> &'static str {
         "C19"
     }
     fn sweeps(&self, _tier: Tier) -> Vec<Box<dyn Sweep>> {
-        vec![Box::new(Faults { damaged: false }), Box::new(Faults { damaged: true })]
+        vec![Box::new(Faults { damaged: false }), Box::new(Faults { damaged: true }), Box::new(BrokenWhileStopped)]
     }
     fn meta(&self, _tier: Tier) -> Meta {
         Meta {
-            bound: "20 referencing forms (GOTO, GOSUB, THEN n, ELSE n, IF..GOTO, THEN GOSUB, nested THEN, every position of ON..GOTO / ON..GOSUB lists, RESTORE n, RUN n, references after FOR / WHILE / DEF / other statements) x 6 missing targets (1 to 5 digits, and 0), 9 unmatched WHILE / WEND placements, and every single-token deletion / replacement (7 replacement tokens) of 11 template lines; x 5 prefixes (none, multi-byte strings, blanks, other statements) x 6 line numbers of 1..5 digits incl. 65529, and as a direct line; 8 ways of entering / not entering the program after each; direct-mode loops over a broken program".into(),
+            bound: "20 referencing forms (GOTO, GOSUB, THEN n, ELSE n, IF..GOTO, THEN GOSUB, nested THEN, every position of ON..GOTO / ON..GOSUB lists, RESTORE n, RUN n, references after FOR / WHILE / DEF / other statements) x 6 missing targets (1 to 5 digits, and 0), 9 unmatched WHILE / WEND placements, and every single-token deletion / replacement (7 replacement tokens) of 11 template lines; x 5 prefixes (none, multi-byte strings, blanks, other statements) x 6 line numbers of 1..5 digits incl. 65529, and as a direct line; 8 ways of entering / not entering the program after each; direct-mode loops over a broken program; a clean program stopped in 3 ways (STOP / END inside a loop inside a subroutine, interrupt while a key is awaited) x 7 edits that break it (DELETE forms, bare number, retyped and added faulty lines, unmatched WEND) x 9 ways of resuming or entering x 3 follow-ups".into(),
             rule: "a case is one faulty program (or direct line); checked per diagnostic: line, code, range inside the listed text, range covers exactly the missing number / the keyword, message column = range start + 1, LIST underline = range; RUN, RUN n, GOTO, GOSUB, ON..GOTO, IF..THEN n print no marker and report; PRINT \"D\" works; distinct_nontrivial = distinct (site, prefix, digits of the line number, statement)".into(),
             states_note: "transitions = sessions judged".into(),
             assumptions: vec![
